@@ -86,6 +86,8 @@ func symxCover(label string) { symxEvents = append(symxEvents, "cover:"+label) }
 
 func symxKnown(id string, region bool) {}
 
+func symxKnownFor(id string, label string, region bool) {}
+
 func symxPermuteMaps(on bool) {}
 
 func symxPanicMode(mode string) {}
